@@ -110,7 +110,7 @@ fn run(c0: &Case) -> Outcome {
                         match st {
                             Some(st) => st.iter().any(|x| *x == 0),
                             None => {
-                                o.fail("harness:probe-log-short", "probe log shorter than the number of output frames x points per frame");
+                                o.fail(format!("window-reuse:{}", kind.name()), "the interpolator was called fewer times than output frames x points per frame: some frame was not computed from its own windows");
                                 return o;
                             }
                         }
